@@ -372,6 +372,12 @@ pub fn run_scenario(
             })
             .collect();
         let mut blinds = blinds;
+        // `eqb` = j (1-based, j >= 2): position j carries the SAME blinding vector as position j - 1 (with equal values the two
+        // commitments are then the same point)
+        let eqb = mb["eqb"].as_u64().unwrap_or(0) as usize;
+        if eqb >= 2 && eqb <= m {
+            blinds[eqb - 1] = blinds[eqb - 2].clone();
+        }
         if mb["wshift"].as_u64().unwrap_or(0) == 1 && t >= 2 {
             for b in blinds.iter_mut() {
                 b[t - 2] += Scalar::ONE;
@@ -1107,6 +1113,19 @@ pub fn run_case(c: &Value, seed: u64, idx: u64) -> (String, Option<String>) {
                     }
                 }
                 (okerr(&r).into(), extra)
+            },
+            "commit_edited" => {
+                // a generator record edited after construction (its fields are public): `extra` surplus blinding bases beyond the
+                // declared extension degree; the bound on the number of blinding factors is the DECLARED degree
+                let mut pc = pedersen_std(u("t"));
+                for x in 0..u("extra") {
+                    let g = alt_point("commit-extra", x as u64 + 1);
+                    pc.g_base_compressed_vec.push(g.compress());
+                    pc.g_base_vec.push(g);
+                }
+                let bl: Vec<Scalar> = (0..u("b")).map(|i| hash_scalar(&[b"commit", &(i as u64).to_le_bytes()])).collect();
+                let r = pc.commit(&Scalar::from(12345u64), &bl);
+                (okerr(&r).into(), None)
             },
             "deg_u8" => {
                 let r = ExtensionDegree::try_from(u("v") as u8);
